@@ -27,6 +27,7 @@ void mpq_arr_free (mpq_t * a, int n)
 
 /* ------------------------------------------------------------------ SBuf */
 void sb_init (SBuf * b) { b->cap = 256; b->len = 0; b->s = xcalloc (b->cap, 1); }
+void sb_reserve (SBuf * b, size_t n) { if (n > b->cap) { b->cap = n; b->s = realloc (b->s, b->cap); } }
 void sb_free (SBuf * b) { free (b->s); b->s = NULL; b->len = b->cap = 0; }
 static void sb_need (SBuf * b, size_t extra)
 {
